@@ -64,8 +64,11 @@ RefArchive gen_ref(Tape& t) {
 	return b;
 }
 
-void read_case(const RefArchive& a, Stats& st, bool sample) {
+void read_case(const RefArchive& a0, Stats& st, bool sample) {
+	RefArchive a = a0;
 	std::vector<refvol::Extent> ext;
+	// in a quarter of the archives with unused slots their stale block offset names a real block (the first member's)
+	if (a.o.unusedSlots && (a.o.unusedFill & 3) == 0 && !a.ms.empty()) { refvol::encode(a.ms, a.o, &ext); a.o.unusedFill = ext[0].blockOffset; st.cls("read:unused_slot_points_at_a_real_block"); }
 	std::vector<uint8_t> bytes = refvol::encode(a.ms, a.o, &ext);
 	std::string vp = "%o/r.vol"; mkdirs("%o/"); write_file(vp, bytes);
 	if (sample && st.want_sample()) {
@@ -96,6 +99,14 @@ void read_case(const RefArchive& a, Stats& st, bool sample) {
 		V_CHECK(ex == a.expanded[i], "ExtractFile of member " << i << (m.comp == refvol::CompLZH ? " (LZH)" : "") << " wrote " << ex.size() << " bytes, expected " << a.expanded[i].size());
 	}
 	V_CHECK(guarded([&] { v->GetName(a.ms.size()); }) == Out::Err, "GetName(count) accepted (unused slot exposed?)");
+	// unused trailing slots are not members: every per-member call refuses their indices
+	for (size_t bad = a.ms.size(); bad <= a.ms.size() + a.o.unusedSlots; ++bad) {
+		V_CHECK(guarded([&] { v->GetName(bad); }) == Out::Err, "GetName(" << bad << ") accepted with " << a.ms.size() << " members (+" << a.o.unusedSlots << " unused slots)");
+		V_CHECK(guarded([&] { v->GetSize(bad); }) == Out::Err, "GetSize(" << bad << ") accepted with " << a.ms.size() << " members (+" << a.o.unusedSlots << " unused slots)");
+		V_CHECK(guarded([&] { v->GetCompressionCode(bad); }) == Out::Err, "GetCompressionCode(" << bad << ") accepted with " << a.ms.size() << " members (+" << a.o.unusedSlots << " unused slots)");
+		V_CHECK(guarded([&] { v->OpenStream(bad); }) == Out::Err, "OpenStream(" << bad << ") accepted with " << a.ms.size() << " members (+" << a.o.unusedSlots << " unused slots)");
+		V_CHECK(guarded([&] { v->ExtractFile(bad, "%o/x.bin"); }) == Out::Err, "ExtractFile(" << bad << ") accepted with " << a.ms.size() << " members (+" << a.o.unusedSlots << " unused slots)");
+	}
 	if (a.o.unusedSlots) st.cls("read:unused_trailing_slots");
 	if (a.o.namePadWords) st.cls("read:extra_name_padding");
 	bool lzh = false; for (auto& m : a.ms) if (m.comp == refvol::CompLZH) lzh = true;
